@@ -902,10 +902,20 @@ class Callable(BaseCallable):
     def __init__(self, value=None, allow_none=True, **metadata):
 
         self.fast_validate = (ValidateTrait.callable, allow_none)
+        self.allow_none = allow_none
 
         default_value = metadata.pop("default_value", value)
 
         super().__init__(default_value, **metadata)
+
+    def validate(self, object, name, value):
+        """ Validates that the value is a Python callable, or None if
+        permitted. Mirrors the C-level fast validator.
+        """
+        if value is None and not getattr(self, "allow_none", True):
+            self.error(object, name, value)
+
+        return super().validate(object, name, value)
 
 
 class BaseType(TraitType):
